@@ -248,27 +248,41 @@ fn expect_eq(got: &[u8; 32], want: &[u8; 32]) {
         i += 1;
     }
 }
-fn check_linear_ops() {
+fn check_add() {
+    let xb: [u8; 32] = kani::any();
+    let yb: [u8; 32] = kani::any();
+    let (x, y) = (Fe::from_bytes(&xb), Fe::from_bytes(&yb));
+    let (cx, cy) = (spec_canon(&xb), spec_canon(&yb));
+    expect_eq(&(&x + &y).to_bytes(), &canon_u(&add33(&cx, &cy)));
+    kani::cover!(true);
+}
+fn check_sub() {
     let xb: [u8; 32] = kani::any();
     let yb: [u8; 32] = kani::any();
     let (x, y) = (Fe::from_bytes(&xb), Fe::from_bytes(&yb));
     let (cx, cy) = (spec_canon(&xb), spec_canon(&yb));
     let ny = p_minus(&cy);
-    expect_eq(&(&x + &y).to_bytes(), &canon_u(&add33(&cx, &cy)));
     expect_eq(&(&x - &y).to_bytes(), &canon_u(&add33(&cx, &ny)));
-    expect_eq(&(-&y).to_bytes(), &canon_u(&add33(&[0u8; 32], &ny)));
-    // (x + y) - (-y) = x + 2y: operands that are results of earlier operations
-    let s = &x + &y;
-    let n = -&y;
-    let two_y = canon_u(&add33(&cy, &cy));
-    expect_eq(&(&s - &n).to_bytes(), &canon_u(&add33(&cx, &two_y)));
     kani::cover!(true);
 }
-// @harness props=C15,C17,C12 kind=full tier=quick build=default timeout=1200
-#[kani::proof]
-#[kani::unwind(34)]
-fn fe_linear_ops_are_field_ops() { check_linear_ops() }
+fn check_neg() {
+    let yb: [u8; 32] = kani::any();
+    let y = Fe::from_bytes(&yb);
+    let ny = p_minus(&spec_canon(&yb));
+    expect_eq(&(-&y).to_bytes(), &canon_u(&add33(&[0u8; 32], &ny)));
+    kani::cover!(true);
+}
+// (the 64-bit backend's add / sub / neg are proved for all bounded limb vectors in the Verus unit fe64; these harnesses give the
+// 32-bit backend the same statement on decoded elements)
 // @harness props=C17 kind=full tier=quick build=force32 timeout=1200
 #[kani::proof]
 #[kani::unwind(34)]
-fn fe_linear_ops_are_field_ops_32() { check_linear_ops() }
+fn fe_add_is_field_add_32() { check_add() }
+// @harness props=C17 kind=full tier=thorough build=force32 timeout=2400
+#[kani::proof]
+#[kani::unwind(34)]
+fn fe_sub_is_field_sub_32() { check_sub() }
+// @harness props=C17 kind=full tier=quick build=force32 timeout=1200
+#[kani::proof]
+#[kani::unwind(34)]
+fn fe_neg_is_field_neg_32() { check_neg() }
